@@ -40,6 +40,11 @@ CHECKS = {
             "failed evaluation = rejected; rejected hits cannot reach record_triggered; the only eval site gets the "
             "unchanged expression text with f_globals/f_locals of the callback's own frame and is reached by every "
             "expression consumer; failures are contained as values and discriminated before use.", "4/C10"),
+    "C11": ("exhaustive decision tables of build_trigger / from_stage / the action builders, sibling agreement, reader/writer key agreement, Optional-use and per-item guard rules, protobuf field binding",
+            "Static decision over every presence/value class of the consulted argument keys of the location kind, stage and "
+            "produced actions; agreement of the four builders on condition/fire_count/fire_period/id/payload; every key an "
+            "action context reads is written by its builder; an uninterpretable tracepoint is skipped inside a per-item "
+            "guard; metric/label definitions bind the matching protobuf fields.", "4/C11"),
     "C13": ("object-sensitive value-dependence analysis of the registration handle (freshness/injectivity), shape rules of add/remove, argument forwarding by origin expansion",
             "Static decision that the handle depends on a per-call fresh token (so equal arguments never give equal handles), that "
             "removal matches that same quantity, deletes at most one entry and is harmless when repeated, that registrations are "
